@@ -196,6 +196,20 @@ void gen(Rng& r, Plan& p, const GenParams& gp) {
       if (p.cfg["global_cap"] * 2 < need) p.cfg["global_cap"] = (need + 1) / 2;
     }
   }
+  if (type == 0 && !(gp.mode >= 0) && r.chance(1, 25)) {
+    // wide pool: more workers than one 128-entry block of the per-thread local
+    // queue storage, so steal sweeps and balance sweeps cross a block boundary.
+    // Parents leave a child in their local queue and keep running for a while.
+    p.cfg["workers"] = (int64_t)r.range(130, 138);
+    p.cfg["local_cap"] = 2; p.cfg["steal"] = 1; p.cfg["balance_us"] = -1;
+    p.cfg["stop_mode"] = 0; p.cfg["wide"] = 1;
+    p.cfg["max_idle_jumps"] = 20000;
+    for (auto& th : p.threads) th.clear();
+    p.threads.resize(2);
+    int nparents = (int)r.range(10, 14);
+    for (int i = 0; i < nparents; i++) { Op o; o.kind = K_SUBMIT; o.a = 1; o.b = (int64_t)r.range(200, 600); o.id = i; p.threads[1].push_back(o); }
+    p.cfg["global_cap"] = 64;
+  }
   // faulty executor: which attempts are refused
   p.cfg["fail_mask"] = (int64_t)r.below(64);
 }
@@ -236,7 +250,8 @@ void run(const Plan& p) {
   hx::Workers w;
   if (s.type == 0) {
     s.pool = new babylon::ThreadPoolExecutor();
-    s.pool->set_worker_number((size_t)std::max<int64_t>(1, std::min<int64_t>(p.get("workers", 1), 3)));
+    s.pool->set_worker_number((size_t)std::max<int64_t>(1, std::min<int64_t>(p.get("workers", 1), p.get("wide", 0) ? 140 : 3)));
+    if (p.get("wide", 0)) probe("wide_pool");
     s.pool->set_global_capacity((size_t)std::max<int64_t>(1, std::min<int64_t>(p.get("global_cap", 1), 64)));
     s.local_capacity = (size_t)std::max<int64_t>(0, std::min<int64_t>(p.get("local_cap", 0), 4));
     s.pool->set_local_capacity(s.local_capacity);
